@@ -110,7 +110,7 @@ CHECKS = {
     'C08': dict(
         category='model_checking', design_ref='DESIGN.md section 3, C08',
         technique='exhaustive permutation of construction histories (all dependency-respecting declaration orders of a country, or all single moves/transpositions/reversal for large countries); states reached through different histories compared by exact solution',
-        text='19 structurally different economies (two with non-default sector and market codes) (one- and two-country, federated, gold standard); every permutation of the sector declarations of a country (<= 6 declarations quick, <= 7 thorough) and '
+        text='20 structurally different economies (three with non-default sector and market codes, one with sector codes ending in a market code) (one- and two-country, federated, gold standard); every permutation of the sector declarations of a country (<= 6 declarations quick, <= 7 thorough) and '
              'all O(n^2) moves for larger ones are executed on the real constructors; in the two-country economies the declarations of the two countries are also interleaved (quick: block insertions, alternation, single cross moves; thorough: every merge) under both creation orders of the countries; '
              'the exact rational solution of each emitted system must equal that of the canonical order.',
         note='Trusted: mc/exact.py, mc/topo.py. Post-declaration calls stay in a fixed tail; all Country objects exist before the first sector is declared.'),
